@@ -1,3 +1,14 @@
-(** Correspondence runner for C05: the property's own projection of a recorder history. *)
-From Playback Require Export Run.RunRec.
-Definition check_case : case -> bool := check_with (fun m i => eq_outcome m i && eq_cass_nometa m i).
+(** Correspondence runner for C05: (a) the property's own projection of a recorder history (outcome and the
+    cassette's create / save / abort sequence); (b) racing threads (Run/RunRace.v): hand-overs of the recording. *)
+From Playback Require Export Run.RunRec Run.RunRace.
+
+Inductive case05 :=
+| H (c : RunRec.case)
+| T (v : variant) (m0 m1 : meth) (m2 : option meth) (e f : nat) (observed : race_obs).
+Definition case := case05.
+
+Definition check_case (c : case) : bool :=
+  match c with
+  | H hc => check_with (fun m i => eq_outcome m i && eq_cass_nometa m i) hc
+  | T v m0 m1 m2 e f o => eq_race_final (model_race v m0 m1 m2 e f) o
+  end.
